@@ -23,6 +23,10 @@ import (
 type pinRec struct {
 	Mode string // "R" | "D"
 	Name string
+	// AnyName: the statement does not say which name a pin created by Update
+	// carries (the implementation copies the name of `from`); any name is
+	// accepted until the CID is pinned again.
+	AnyName bool
 }
 
 type model struct {
@@ -51,7 +55,11 @@ func (m *model) ind(c string) bool { return !m.rec(c) && len(m.via(c)) > 0 }
 func (m *model) String() string {
 	ks := []string{}
 	for c, p := range m.pins {
-		ks = append(ks, fmt.Sprintf("%s:%s%q", c, p.Mode, p.Name))
+		nm := fmt.Sprintf("%q", p.Name)
+		if p.AnyName {
+			nm = "<any name>"
+		}
+		ks = append(ks, fmt.Sprintf("%s:%s%s", c, p.Mode, nm))
 	}
 	sort.Strings(ks)
 	return "{" + strings.Join(ks, " ") + "}"
@@ -214,7 +222,7 @@ func (o *observer) checkBatch(op, mode string, names bool, res []ipfspinner.Pinn
 			}
 			o.vec = append(o.vec, fmt.Sprintf("%s[%s]=%s/%s/%s", tag, c, ms, viaN, nm))
 			ok := false
-			nameOK := !names || e.Name == m.pins[c].Name
+			nameOK := !names || e.Name == m.pins[c].Name || m.pins[c].AnyName
 			switch mode {
 			case "any":
 				switch {
@@ -268,7 +276,7 @@ func (o *observer) checkList(op string, detailed bool, ch <-chan ipfspinner.Stre
 			lines = append(lines, fmt.Sprintf("%s/%s/%q", c, ms, sp.Pin.Name))
 			want := m.pins[c]
 			wm := map[string]string{"R": "recursive", "D": "direct"}[want.Mode]
-			if wm == wantMode && (ms != wantMode || sp.Pin.Name != want.Name) {
+			if wm == wantMode && (ms != wantMode || (sp.Pin.Name != want.Name && !want.AnyName)) {
 				o.bad(op, wantMode, c, fmt.Sprintf("%s lists %s as {mode %s name %q}, model has {mode %s name %q}", tag, c, ms, sp.Pin.Name, wm, want.Name))
 			}
 		} else {
